@@ -6,57 +6,93 @@ open Std.Do
 
 set_option mvcgen.warning false
 
+/-- the last token handed out by the generator was an END statement -/
+def EndSeen (c : PCfg) (s : PSt) : Prop :=
+  ∃ t, s.gen.last = some t ∧ Tok.isEndStatement c.g t.text = true
+
+/-- how a parse may end with a module: the lexer reached the end of the text normally, or the END
+    statement was consumed -/
+def Finished (c : PCfg) (s : PSt) : Prop := (s.gen.dead = true ∧ c.tail = .eof) ∨ EndSeen c s
+
+/-- what the module post-hook leaves behind, by outcome: "ignore me" (`Exception`) comes with the
+    offending token pushed back; a verdict comes with a consistent generator; anything else is a hard
+    error that the callers re-raise -/
+def HookPost (c : PCfg) (r : Items × Except PErr Bool) (s : PSt) : Prop :=
+  (r.2 = .error .exc ∧ Pend s) ∨ (r.2 = .ok true ∧ Inv c s) ∨
+  (r.2 = .ok false ∧ s.gen.dead = true ∧ s.gen.pushed = none ∧ c.tail = .eof) ∨
+  (∃ p, r.2 = .error (.lexer p)) ∨ (r.2 = .error (.parse none) ∧ c.tail = .eof) ∨ r.2 = .error .fuel
+
+theorem isLexer_iff (e : PErr) : e.isLexer = true ↔ ∃ p, e = .lexer p := by
+  cases e <;> simp [PErr.isLexer]
+
+theorem hard0_cases (e : PErr) (h : Hard0 c e) : (∃ p, e = .lexer p) ∨ e = .parse none ∨ e = .fuel := by
+  rcases h with h | h | h
+  · exact Or.inl ((isLexer_iff e).mp h)
+  · exact Or.inr (Or.inl h.1)
+  · exact Or.inr (Or.inr h)
+
+macro "vc_close3" : tactic => `(tactic|
+  all_goals (first
+    | assumption
+    | (intros; simp_all [HookPost, EndSeen, Finished, Hard, Hard0, Inv, Got, GotT, Pend, Rdy, Live, PErr.isLexer, PErr.isValueError]; done)
+    | (simp_all (config := {zetaDelta := true}) [HookPost, EndSeen, Finished, Hard, Hard0, Inv, Got, GotT, Pend, Rdy, Live, PErr.isLexer, PErr.isValueError]; done)
+    | grind [HookPost, EndSeen, Finished, Hard, Hard0, Inv, Got, GotT, Pend, Rdy, Live, PErr.isLexer, PErr.isValueError]
+    | grind [HookPost, EndSeen, Finished, Hard, Hard0, Inv, Got, GotT, Pend, Rdy, Live, isLexer_iff, PErr.isValueError]
+    | grind (splits := 40) [HookPost, EndSeen, Finished, Hard, Hard0, Inv, Got, GotT, Pend, Rdy, Live, PErr.isLexer, PErr.isValueError]))
+
+
 /-- in any consistent state `tokens.throw(...)` raises a LexerError, or the plain ValueError with the
     state untouched (a finished generator) -/
-theorem throwIn_Inv_spec {α} :
-    ⦃fun s => ⌜Inv s⌝⦄ (throwIn : PM α)
-    ⦃post⟨fun _ _ => ⌜False⌝, fun e s => ⌜e.isLexer = true ∨ (e = .value ∧ Inv s)⌝⟩⦄ := by
+theorem throwIn_Inv_spec {α} (c : PCfg) :
+    ⦃fun s => ⌜Inv c s⌝⦄ (throwIn : PM α)
+    ⦃post⟨fun _ _ => ⌜False⌝, fun e s => ⌜e.isLexer = true ∨ (e = .value ∧ Inv c s)⌝⟩⦄ := by
   mvcgen [throwIn]
-  vc_close2
+  vc_close3
 
 /-- `PVLParser.parse_assignment_statement`: soft failure only before the name is consumed (or at the
     end of the tokens); a ParseError that carries the name token means "ran out of tokens after `=`". -/
 theorem assignmentBase_spec (c : PCfg) (fuel : Nat) :
-    ⦃fun s => ⌜Inv s⌝⦄ (assignmentBase c fuel : PM (Str × Val))
-    ⦃post⟨fun _ s => ⌜Inv s⌝,
-          fun e s => ⌜Hard0 e ∨ ((∃ t, e = .parse (some t)) ∧ Inv s) ∨ (e = .value ∧ Inv s)⌝⟩⦄ := by
+    ⦃fun s => ⌜Inv c s⌝⦄ (assignmentBase c fuel : PM (Str × Val))
+    ⦃post⟨fun _ s => ⌜Inv c s⌝,
+          fun e s => ⌜Hard0 c e ∨ ((∃ t, e = .parse (some t)) ∧ Inv c s ∧ c.tail = .eof) ∨ (e = .value ∧ Inv c s)⌝⟩⦄ := by
   unfold assignmentBase
   mvcgen [softCatch, next_spec, send_spec, aroundEquals_spec, throwIn_Live_spec, value_spec, stmtDelim_spec]
-  vc_close2
+  vc_close3
 
 /-- `parse_assignment_statement` including OmniParser's override (an empty value at the end of the
     tokens) -/
 theorem assignment_spec (c : PCfg) (fuel : Nat) :
-    ⦃fun s => ⌜Inv s⌝⦄ (assignment c fuel : PM (Str × Val))
-    ⦃post⟨fun _ s => ⌜Inv s⌝, fun e s => ⌜Hard e ∨ (e = .value ∧ Inv s)⌝⟩⦄ := by
+    ⦃fun s => ⌜Inv c s⌝⦄ (assignment c fuel : PM (Str × Val))
+    ⦃post⟨fun _ s => ⌜Inv c s⌝, fun e s => ⌜Hard c e ∨ (e = .value ∧ Inv c s)⌝⟩⦄ := by
   unfold assignment
   mvcgen [assignmentBase_spec, emptyValue_Inv_spec]
-  vc_close2
+  vc_close3
 
-/-- `parse_end_statement`: soft failure = some other token was found and pushed back -/
+/-- `parse_end_statement`: soft failure = some other token was found and pushed back; success = END was
+    consumed or the tokens ran out -/
 theorem endStatement_spec (c : PCfg) :
-    ⦃fun s => ⌜Inv s⌝⦄ (endStatement c : PM Unit)
-    ⦃post⟨fun _ s => ⌜Inv s⌝, fun e s => ⌜e.isLexer = true ∨ (e = .value ∧ Pend s)⌝⟩⦄ := by
+    ⦃fun s => ⌜Inv c s⌝⦄ (endStatement c : PM Unit)
+    ⦃post⟨fun _ s => ⌜Inv c s ∧ Finished c s⌝, fun e s => ⌜e.isLexer = true ∨ (e = .value ∧ Pend s)⌝⟩⦄ := by
   unfold endStatement
   mvcgen [next_spec, send_spec]
-  vc_close2
+  vc_close3
 
 /-- `parse_begin_aggregation_statement` -/
 theorem beginAgg_spec (c : PCfg) (fuel : Nat) :
-    ⦃fun s => ⌜Inv s⌝⦄ (beginAgg c fuel : PM (Str × Str))
-    ⦃post⟨fun _ s => ⌜Inv s⌝, fun e s => ⌜Hard0 e ∨ (e = .value ∧ Inv s)⌝⟩⦄ := by
+    ⦃fun s => ⌜Inv c s⌝⦄ (beginAgg c fuel : PM (Str × Str))
+    ⦃post⟨fun _ s => ⌜Inv c s⌝, fun e s => ⌜Hard0 c e ∨ (e = .value ∧ Inv c s)⌝⟩⦄ := by
   unfold beginAgg
   mvcgen [softCatch, next_spec, send_spec, aroundEquals_spec, throwIn_Live_spec, stmtDelim_spec]
-  vc_close2
+  vc_close3
 
 /-- `parse_end_aggregation`: StopIteration may leave it (the caller turns that into a ParseError);
     a soft failure = another token was found and pushed back -/
 theorem endAgg_spec (c : PCfg) (b n : Str) (fuel : Nat) :
-    ⦃fun s => ⌜Inv s⌝⦄ (endAgg c b n fuel : PM Unit)
-    ⦃post⟨fun _ s => ⌜Inv s⌝, fun e s => ⌜Hard0 e ∨ e = .stop ∨ (e = .value ∧ Pend s)⌝⟩⦄ := by
+    ⦃fun s => ⌜Inv c s⌝⦄ (endAgg c b n fuel : PM Unit)
+    ⦃post⟨fun _ s => ⌜Inv c s⌝, fun e s => ⌜Hard0 c e ∨ (e = .stop ∧ c.tail = .eof) ∨ (e = .value ∧ Pend s)⌝⟩⦄ := by
   unfold endAgg
   mvcgen [next_spec, send_spec, aroundEquals_spec, throwIn_Live_spec, stmtDelim_spec]
-  vc_close2
+  vc_close3
 
 /-- `_empty_value` and the model's `mark` do not touch the generator -/
 theorem emptyValue_gen_spec (c : PCfg) (pos : Int) (g0 : Gen) :
@@ -67,34 +103,10 @@ theorem mark_gen_spec (site : String) (g0 : Gen) :
     ⦃fun s => ⌜s.gen = g0⌝⦄ (mark site : PM Unit) ⦃post⟨fun _ s => ⌜s.gen = g0⌝, fun _ _ => ⌜False⌝⟩⦄ := by
   mvcgen [mark]
 
-/-- what the module post-hook leaves behind, by outcome: "ignore me" (`Exception`) comes with the
-    offending token pushed back; a verdict comes with a consistent generator; anything else is a hard
-    error that the callers re-raise -/
-def HookPost (r : Items × Except PErr Bool) (s : PSt) : Prop :=
-  (r.2 = .error .exc ∧ Pend s) ∨ (∃ b, r.2 = .ok b ∧ Inv s) ∨
-  (∃ p, r.2 = .error (.lexer p)) ∨ r.2 = .error (.parse none) ∨ r.2 = .error .fuel
-
-theorem isLexer_iff (e : PErr) : e.isLexer = true ↔ ∃ p, e = .lexer p := by
-  cases e <;> simp [PErr.isLexer]
-
-theorem hard0_cases (e : PErr) (h : Hard0 e) : (∃ p, e = .lexer p) ∨ e = .parse none ∨ e = .fuel := by
-  rcases h with h | h | h
-  · exact Or.inl ((isLexer_iff e).mp h)
-  · exact Or.inr (Or.inl h)
-  · exact Or.inr (Or.inr h)
-
-macro "vc_close3" : tactic => `(tactic|
-  all_goals (first
-    | assumption
-    | (intros; simp_all [HookPost, Hard, Hard0, Inv, Got, Pend, Rdy, Live, PErr.isLexer, PErr.isValueError]; done)
-    | (simp_all (config := {zetaDelta := true}) [HookPost, Hard, Hard0, Inv, Got, Pend, Rdy, Live, PErr.isLexer, PErr.isValueError]; done)
-    | grind [HookPost, Hard, Hard0, Inv, Got, Pend, Rdy, Live, PErr.isLexer, PErr.isValueError]
-    | grind [HookPost, Hard, Hard0, Inv, Got, Pend, Rdy, Live, isLexer_iff, PErr.isValueError]))
-
 /-- `parse_module_post_hook` (both the base class's and OmniParser's) never raises; see `HookPost` -/
 theorem moduleHook_spec (c : PCfg) (m : Items) (fuel : Nat) :
     ⦃fun s => ⌜Pend s⌝⦄ (moduleHook c m fuel : PM (Items × Except PErr Bool))
-    ⦃post⟨fun r s => ⌜HookPost r s⌝, fun _ _ => ⌜False⌝⟩⦄ := by
+    ⦃post⟨fun r s => ⌜HookPost c r s⌝, fun _ _ => ⌜False⌝⟩⦄ := by
   unfold moduleHook moduleHook.peek
   mvcgen [next_spec, send_spec, emptyValue_gen_spec, mark_gen_spec,
     wscUntil_spec, value_spec, stmtDelim_spec]
@@ -103,10 +115,10 @@ theorem moduleHook_spec (c : PCfg) (m : Items) (fuel : Nat) :
 /-- the two mutually recursive block functions at one fuel level: they fail softly only with a
     consistent generator, everything else they raise is a LexerError / ParseError -/
 def AggSpecs (c : PCfg) (fuel : Nat) : Prop :=
-  (⦃fun s => ⌜Inv s⌝⦄ (aggBlock c fuel : PM (Str × Val))
-    ⦃post⟨fun _ s => ⌜Inv s⌝, fun e s => ⌜Hard e ∨ (e = .value ∧ Inv s)⌝⟩⦄) ∧
-  (∀ b n agg, ⦃fun s => ⌜Inv s⌝⦄ (aggLoop c b n agg fuel : PM Items)
-    ⦃post⟨fun _ s => ⌜Inv s⌝, fun e s => ⌜Hard e ∨ (e = .value ∧ Inv s)⌝⟩⦄)
+  (⦃fun s => ⌜Inv c s⌝⦄ (aggBlock c fuel : PM (Str × Val))
+    ⦃post⟨fun _ s => ⌜Inv c s⌝, fun e s => ⌜Hard c e ∨ (e = .value ∧ Inv c s)⌝⟩⦄) ∧
+  (∀ b n agg, ⦃fun s => ⌜Inv c s⌝⦄ (aggLoop c b n agg fuel : PM Items)
+    ⦃post⟨fun _ s => ⌜Inv c s⌝, fun e s => ⌜Hard c e ∨ (e = .value ∧ Inv c s)⌝⟩⦄)
 
 theorem aggSpecs_zero (c : PCfg) : AggSpecs c 0 := by
   refine ⟨?_, ?_⟩
@@ -116,14 +128,17 @@ theorem aggSpecs_zero (c : PCfg) : AggSpecs c 0 := by
 set_option maxHeartbeats 4000000 in
 theorem aggSpecs_succ (c : PCfg) (k : Nat) (ih : AggSpecs c k) : AggSpecs c (k + 1) := by
   obtain ⟨ihBlock, ihLoop⟩ := ih
+  have hT : ∀ {α}, ⦃fun s => ⌜Inv c s⌝⦄ (throwIn : PM α)
+      ⦃post⟨fun _ _ => ⌜False⌝, fun e s => ⌜e.isLexer = true ∨ (e = .value ∧ Inv c s)⌝⟩⦄ :=
+    fun {α} => throwIn_Inv_spec (α := α) c
   refine ⟨?_, ?_⟩
   · unfold aggBlock
-    mvcgen [beginAgg_spec, throwIn_Inv_spec, ihLoop]
+    mvcgen [beginAgg_spec, hT, ihLoop]
     vc_close3
   · intro b n a
     unfold aggLoop
     mvcgen [softCatch, wscUntil_spec, ihBlock, ihLoop, assignment_spec, endAgg_spec, moduleHook_spec,
-      throwIn_Inv_spec]
+      hT]
     vc_close3
 
 theorem aggSpecs (c : PCfg) (fuel : Nat) : AggSpecs c fuel := by
@@ -132,15 +147,15 @@ theorem aggSpecs (c : PCfg) (fuel : Nat) : AggSpecs c fuel := by
   | succ n ih => exact aggSpecs_succ c n ih
 
 theorem aggBlock_spec (c : PCfg) (fuel : Nat) :
-    ⦃fun s => ⌜Inv s⌝⦄ (aggBlock c fuel : PM (Str × Val))
-    ⦃post⟨fun _ s => ⌜Inv s⌝, fun e s => ⌜Hard e ∨ (e = .value ∧ Inv s)⌝⟩⦄ := (aggSpecs c fuel).1
+    ⦃fun s => ⌜Inv c s⌝⦄ (aggBlock c fuel : PM (Str × Val))
+    ⦃post⟨fun _ s => ⌜Inv c s⌝, fun e s => ⌜Hard c e ∨ (e = .value ∧ Inv c s)⌝⟩⦄ := (aggSpecs c fuel).1
 
 set_option maxHeartbeats 4000000 in
 /-- **`parse_module` raises nothing but LexerError and ParseError** (or the model's fuel marker),
     from every consistent generator state, for every fuel. -/
 theorem moduleLoop_spec (c : PCfg) (fuel : Nat) :
-    ∀ m, ⦃fun s => ⌜Inv s⌝⦄ (moduleLoop c m fuel : PM Items)
-      ⦃post⟨fun _ _ => ⌜True⌝, fun e _ => ⌜Hard e⌝⟩⦄ := by
+    ∀ m, ⦃fun s => ⌜Inv c s⌝⦄ (moduleLoop c m fuel : PM Items)
+      ⦃post⟨fun _ s => ⌜Finished c s⌝, fun e _ => ⌜Hard c e⌝⟩⦄ := by
   induction fuel with
   | zero => intro m; unfold moduleLoop; mvcgen; vc_close3
   | succ k ih =>
